@@ -31,15 +31,15 @@ func init() {
 		// of a folder only Fid and Title are transferred (ThisFolder is a pointer)
 		lf.natList("favFolderFields", favWireFields(p, "FavFolder", []string{"Fid", "Title"}))
 		// the counters, in the order the code transfers them before the entry loop
-		lf.raw(strList("writeHeader", favHeaderOrder(p, "WriteFavrec", "BinaryWrite")))
-		lf.raw(strList("readHeader", favHeaderOrder(p, "ReadFavrec", "BinaryRead")))
+		lf.raw(favStrList("writeHeader", favHeaderOrder(p, "WriteFavrec", "BinaryWrite")))
+		lf.raw(favStrList("readHeader", favHeaderOrder(p, "ReadFavrec", "BinaryRead")))
 		// widths of the counters in that order
 		lf.natList("headerFieldWidths", favWireFields(p, "FavRaw", []string{"NBoards", "NLines", "NFolders"}))
 		lf.write(out)
 	})
 }
 
-func strList(name string, vals []string) string {
+func favStrList(name string, vals []string) string {
 	q := make([]string, len(vals))
 	for i, v := range vals {
 		q[i] = fmt.Sprintf("%q", v)
@@ -47,7 +47,7 @@ func strList(name string, vals []string) string {
 	return fmt.Sprintf("def %s : List String := [%s]\n\n", name, strings.Join(q, ", "))
 }
 
-func wireWidth(t types.Type, where string) int64 {
+func favWireWidth(t types.Type, where string) int64 {
 	switch u := t.Underlying().(type) {
 	case *types.Basic:
 		switch u.Kind() {
@@ -61,11 +61,11 @@ func wireWidth(t types.Type, where string) int64 {
 			return 8
 		}
 	case *types.Array:
-		return u.Len() * wireWidth(u.Elem(), where)
+		return u.Len() * favWireWidth(u.Elem(), where)
 	case *types.Struct:
 		var s int64
 		for i := 0; i < u.NumFields(); i++ {
-			s += wireWidth(u.Field(i).Type(), where+"."+u.Field(i).Name())
+			s += favWireWidth(u.Field(i).Type(), where+"."+u.Field(i).Name())
 		}
 		return s
 	}
@@ -82,7 +82,7 @@ func favWireFields(p *packages.Package, name string, only []string) []string {
 	var out []string
 	if only == nil {
 		for i := 0; i < st.NumFields(); i++ {
-			out = append(out, fmt.Sprint(wireWidth(st.Field(i).Type(), name+"."+st.Field(i).Name())))
+			out = append(out, fmt.Sprint(favWireWidth(st.Field(i).Type(), name+"."+st.Field(i).Name())))
 		}
 		return out
 	}
@@ -90,7 +90,7 @@ func favWireFields(p *packages.Package, name string, only []string) []string {
 		found := false
 		for i := 0; i < st.NumFields(); i++ {
 			if st.Field(i).Name() == want {
-				out = append(out, fmt.Sprint(wireWidth(st.Field(i).Type(), name+"."+want)))
+				out = append(out, fmt.Sprint(favWireWidth(st.Field(i).Type(), name+"."+want)))
 				found = true
 			}
 		}
